@@ -744,7 +744,7 @@ func newTeletextCharacterDecoder() *teletextCharacterDecoder {
 
 // TODO Add tests
 func (d *teletextCharacterDecoder) setTripletM29(i uint32) {
-	if *d.tripletM29 != i {
+	if d.tripletM29 == nil || *d.tripletM29 != i {
 		d.tripletM29 = astikit.UInt32Ptr(i)
 		d.updateCharset(d.lastPageCharsetCode, true)
 	}
@@ -752,7 +752,7 @@ func (d *teletextCharacterDecoder) setTripletM29(i uint32) {
 
 // TODO Add tests
 func (d *teletextCharacterDecoder) setTripletX28(i uint32) {
-	if *d.tripletX28 != i {
+	if d.tripletX28 == nil || *d.tripletX28 != i {
 		d.tripletX28 = astikit.UInt32Ptr(i)
 		d.updateCharset(d.lastPageCharsetCode, true)
 	}
@@ -768,6 +768,11 @@ func (d *teletextCharacterDecoder) decode(i byte) []byte {
 
 // TODO Add tests
 func (d *teletextCharacterDecoder) updateCharset(pageCharsetCode *uint8, force bool) {
+	// No page has been parsed yet, the charset will be computed when parsing the first one
+	if pageCharsetCode == nil {
+		return
+	}
+
 	// Charset is up to date
 	if d.lastPageCharsetCode != nil && *pageCharsetCode == *d.lastPageCharsetCode && !force {
 		return
